@@ -144,6 +144,10 @@ class JSON:
     ) -> str:
         """Apply this filter to _left_ and return the result."""
         indent = int_arg(indent) if indent else None
+        if is_undefined(left):
+            # A missing variable is nil, unless the undefined type is a strict one.
+            left.poke()
+            left = None
         try:
             return json.dumps(
                 left, default=self.default, indent=indent, allow_nan=False
